@@ -10,17 +10,15 @@ From Hy Require Import Base.Num Gen.Consts Gen.ConstsC10 Model.Dscore
 Import ListNotations.
 Open Scope R_scope.
 
-(* ------------------------------------------------------------------ *)
-(* discrimination score                                                *)
-
-(* Cauchy-Schwarz for lists of any lengths *)
 
 (* To keep the compilation of this file short (each Print Assumptions walks the
    whole real-number library) related statements are bundled as conjunctions;
    every conjunct is a complete statement with its own quantifiers. *)
 
+(* ------------------------------------------------------------------ *)
+(* discrimination score                                                *)
 Theorem C10_dscore_range :
-  (* cauchy_schwarz *)
+  (* cauchy_schwarz: Cauchy-Schwarz for lists of any lengths *)
   (forall a b : list R,
   sdot a b * sdot a b <= sdot a a * sdot b b) /\
   (* the score lies in [0,1] for every number of forecasts n >= 2, every ensemble
